@@ -51,6 +51,10 @@ class Engine:
         product.payoff_underlying.check_consistency(
             process_dimension=self.coupling_process.model.dimension_model()
         )
+        if self.configuration.nb_of_processes == 1:
+            # seed once per run and before any variate is drawn: seeding in every pass of every level would make
+            # all of them replay the same stream
+            self.configuration.initialisation_seed()
         maturity = product.maturity
         product.update(self.coupling_process.fine_process.process_representation)
         self.coupling_process.initialisation(product)
@@ -119,8 +123,7 @@ class Engine:
         nb_of_processes = self.configuration.nb_of_processes
 
         if nb_of_processes == 1:
-            # single process version
-            self.configuration.initialisation_seed()
+            # single process version (the generators have been seeded in `initialisation`)
             for iteration in range(extra_mc_paths):
                 simulated_path = simulation_path()
                 path_manager.set_to_path(simulated_path)
